@@ -461,3 +461,190 @@ Proof.
     + unfold string_type. rewrite FAM. cbn [app]. fin.
     + pose proof (sitems_len items). rewrite !app_length. lia.
 Qed.
+
+(* ---------------------------------------------------------------------------------------------- *)
+(* double-quoted identifiers *)
+Lemma qitems_len items : (length items <= length (flat_map qitem_text items))%nat.
+Proof.
+  induction items as [|it items IH]; [cbn; lia |]. cbn [flat_map length]. rewrite app_length.
+  assert (1 <= length (qitem_text it))%nat; [| lia].
+  destruct it as [x|a b]; cbn [qitem_text length].
+  - pose proof (encode_len x). lia.
+  - rewrite app_length. pose proof (encode_len a). lia.
+Qed.
+
+Lemma quoted_ident_body_spec bs start cl items : forall fuel r p buf,
+  forallb qitem_ok items = true -> scalar cl = true -> normalize_quote cl = 34 ->
+  next_rune_not (fun x => normalize_quote x =? 34) r = true -> (length items < fuel)%nat ->
+  quoted_ident_body bs fuel start 34 (flat_map qitem_text items ++ encode_rune cl ++ r, p) buf =
+  Val ((TT_DoubleQuotedString, buf ++ flat_map qitem_value items, 34),
+       (r, p + N.of_nat (length (flat_map qitem_text items ++ encode_rune cl)))).
+Proof.
+  induction items as [|it items IH]; intros fuel r p buf OK SC NC FO Hf; (destruct fuel as [|f]; [cbn in Hf; lia |]).
+  - cbn [flat_map app quoted_ident_body fst]. rewrite match_ne by apply enc_app_ne.
+    rewrite (decode_encode cl _ SC). cbv beta iota zeta. rewrite NC. cbn [N.eqb Pos.eqb].
+    rewrite skipn_app_len, adv_app, app_nil_r.
+    destruct r as [|x r']; [reflexivity |].
+    unfold next_rune_not in FO. destruct (decode_rune (x :: r')) as [nr0 nsz]. cbn [fst] in FO.
+    apply negb_true_iff in FO. rewrite FO. reflexivity.
+  - cbn [forallb] in OK. apply andb_prop in OK. destruct OK as [OK1 OK]. cbn [length] in Hf.
+    destruct it as [x|a b]; cbn [qitem_ok] in OK1; cbn [flat_map qitem_text qitem_value].
+    + apply andb_prop in OK1. destruct OK1 as [OK1 N10]. apply andb_prop in OK1. destruct OK1 as [SX N34].
+      apply negb_true_iff in N10, N34.
+      rewrite <- !app_assoc. cbn [quoted_ident_body fst]. rewrite match_ne by apply enc_app_ne.
+      rewrite (decode_encode x _ SX). cbv beta iota zeta. rewrite N34, N10. rewrite adv_app.
+      rewrite IH by (auto; lia). rewrite <- app_assoc. fin.
+    + apply andb_prop in OK1. destruct OK1 as [OK1 NB]. apply andb_prop in OK1. destruct OK1 as [OK1 NA].
+      apply andb_prop in OK1. destruct OK1 as [SA SB]. apply N.eqb_eq in NA, NB.
+      rewrite <- !app_assoc. cbn [quoted_ident_body fst]. rewrite match_ne by apply enc_app_ne.
+      rewrite (decode_encode a _ SA). cbv beta iota zeta. rewrite NA. cbn [N.eqb Pos.eqb].
+      rewrite skipn_app_len. rewrite match_ne by apply enc_app_ne.
+      rewrite (decode_encode b _ SB). cbv beta iota zeta. rewrite NB. cbn [N.eqb Pos.eqb].
+      rewrite adv_app2. rewrite IH by (auto; lia). rewrite <- app_assoc. fin.
+Qed.
+
+Lemma munch_LQId op cl items : munches (LQId op cl items).
+Proof.
+  intros bs r i OK FO. cbn [lex_ok class_follow render tok_of] in *.
+  apply andb_prop in OK. destruct OK as [OK IT]. apply andb_prop in OK. destruct OK as [OK NC].
+  apply andb_prop in OK. destruct OK as [OK SC]. apply andb_prop in OK. destruct OK as [OK NO].
+  apply andb_prop in OK. destruct OK as [OK SO]. apply andb_prop in OK. destruct OK as [DQ NS].
+  apply N.eqb_eq in NC, NO. apply negb_true_iff in NS.
+  assert (ND : is_digit op = false).
+  { destruct (is_digit op) eqn:D; [| reflexivity]. exfalso.
+    assert (L : op < 128) by (unfold is_digit, in_rng in D; lia).
+    destruct (ascii_class op L) as (_ & _ & _ & UQ). rewrite UQ, orb_false_r in DQ.
+    apply N.eqb_eq in DQ. subst op. discriminate D. }
+  rewrite <- !app_assoc.
+  unfold next_token. cbn [fst]. rewrite match_ne by apply enc_app_ne.
+  rewrite (decode_encode op _ SO). cbv beta iota zeta. rewrite NS, ND, DQ.
+  unfold read_quoted_identifier. cbn [fst snd].
+  rewrite (decode_encode op _ SO). cbv beta iota zeta. rewrite NO.
+  rewrite adv_rune_app by apply encode_ne. cbn [fst].
+  rewrite quoted_ident_body_spec; auto.
+  - cbn [app]. fin.
+  - pose proof (qitems_len items). rewrite !app_length. lia.
+Qed.
+
+(* ---------------------------------------------------------------------------------------------- *)
+(* dollar quoting *)
+Lemma is_prefix_self p r : is_prefix p (p ++ r) = true.
+Proof. induction p as [|x p IH]; [reflexivity |]. cbn. rewrite N.eqb_refl. exact IH. Qed.
+
+Lemma is_prefix_app_r p : forall l r, (length p <= length l)%nat -> is_prefix p (l ++ r) = is_prefix p l.
+Proof.
+  induction p as [|x p IH]; intros l r H; [reflexivity |].
+  destruct l as [|y l]; [cbn in H; lia |]. cbn [app is_prefix]. rewrite IH by (cbn in H; lia). reflexivity.
+Qed.
+
+Lemma no_early_close_skipn closing k : forall body, no_early_close closing body = true -> no_early_close closing (skipn k body) = true.
+Proof.
+  induction k as [|k IH]; intros body H; [exact H |]. destruct body as [|a body]; [exact H |].
+  cbn [skipn]. apply IH. cbn [no_early_close] in H. apply andb_prop in H. tauto.
+Qed.
+
+Lemma adv_runes_app closing r p :
+  adv_runes (length closing) closing (closing ++ r, p) = (r, p + N.of_nat (length closing)).
+Proof.
+  pose proof (adv_runes_spec (length closing) closing (closing ++ r, p) r (le_n _) eq_refl) as [S1 S2].
+  destruct (adv_runes (length closing) closing (closing ++ r, p)) as [l q]. cbn [fst snd] in *.
+  apply app_inv_head in S1. subst. reflexivity.
+Qed.
+
+Lemma dollar_body_spec bs ctl : forall n body, (length body <= n)%nat -> forall fuel r p buf,
+  no_early_close (36 :: ctl) body = true -> (length body < fuel)%nat ->
+  dollar_body bs fuel (36 :: ctl) (body ++ (36 :: ctl) ++ r, p) buf =
+  Val ((TT_DollarQuotedString, buf ++ body, 0), (r, p + N.of_nat (length (body ++ 36 :: ctl)))).
+Proof.
+  induction n as [|n IH]; intros body Hn fuel r p buf NE Hf.
+  - destruct body; [| cbn in Hn; lia]. destruct fuel as [|f]; [lia |].
+    cbn [app dollar_body fst]. rewrite N.eqb_refl. cbn [andb].
+    change (36 :: ctl ++ r) with ((36 :: ctl) ++ r). rewrite is_prefix_self.
+    rewrite adv_runes_app, app_nil_r. reflexivity.
+  - destruct body as [|b body]; [apply (IH []); auto; cbn; lia |].
+    destruct fuel as [|f]; [lia |].
+    cbn [app dollar_body fst].
+    assert (NP : (b =? 36) && is_prefix (36 :: ctl) (b :: body ++ (36 :: ctl) ++ r) = false).
+    { cbn [no_early_close] in NE. apply andb_prop in NE. destruct NE as [NE _]. apply negb_true_iff in NE.
+      change (b :: body ++ (36 :: ctl) ++ r) with ((b :: body) ++ (36 :: ctl) ++ r).
+      rewrite app_assoc. rewrite is_prefix_app_r by (rewrite app_length; lia). rewrite NE. apply andb_false_r. }
+    cbn [app] in NP. rewrite NP.
+    destruct (decode_rune (b :: body ++ 36 :: ctl ++ r)) as [x sz] eqn:D.
+    destruct (decode_chunk b body (36 :: ctl ++ r) x sz ltac:(cbn; lia) D) as (k & -> & K & _).
+    assert (AD : adv_rune (b :: body ++ 36 :: ctl ++ r, p) (S k) = (skipn k body ++ 36 :: ctl ++ r, p + N.of_nat (S k))).
+    { unfold adv_rune, adv. cbn [fst snd skipn]. rewrite skipn_app. replace (k - length body)%nat with 0%nat by lia.
+      reflexivity. }
+    rewrite AD.
+    assert (F1 : firstn (S k) (b :: body ++ 36 :: ctl ++ r) = b :: firstn k body).
+    { cbn [firstn]. rewrite firstn_app. replace (k - length body)%nat with 0%nat by lia.
+      rewrite firstn_O, app_nil_r. reflexivity. }
+    rewrite F1.
+    change (skipn k body ++ 36 :: ctl ++ r) with (skipn k body ++ (36 :: ctl) ++ r).
+    rewrite (IH (skipn k body)).
+    + rewrite <- app_assoc. cbn [app]. rewrite firstn_skipn.
+      match goal with |- Val (_, (_, ?a)) = Val (_, (_, ?b)) => replace b with a; [reflexivity |] end.
+      repeat (progress (rewrite ?app_length, ?skipn_length; cbn [length])). lia.
+    + rewrite skipn_length. cbn [length] in Hn. lia.
+    + apply no_early_close_skipn. cbn [no_early_close] in NE. apply andb_prop in NE. tauto.
+    + rewrite skipn_length. cbn [length] in Hf. lia.
+Qed.
+
+(* the tag loop over an encoded tag followed by '$' *)
+Lemma tag_body_spec rs : forall fuel rest p,
+  forallb is_ident_part rs = true -> forallb scalar rs = true -> (length rs < fuel)%nat ->
+  tag_body fuel (utf8 rs ++ 36 :: rest, p) = Val (Some (utf8 rs, (36 :: rest, p + N.of_nat (length (utf8 rs))))).
+Proof.
+  induction rs as [|x rs IH]; intros fuel rest p IP SC Hf; (destruct fuel as [|f]; [cbn in Hf; lia |]).
+  - cbn [utf8 flat_map app length tag_body fst]. rewrite decode_ascii by lia. cbn [N.eqb Pos.eqb].
+    rewrite N.add_0_r. reflexivity.
+  - cbn [forallb] in IP, SC. apply andb_prop in IP, SC. destruct IP as [P1 P2], SC as [S1 S2].
+    cbn [utf8 flat_map]. fold (utf8 rs). rewrite <- app_assoc. cbn [tag_body fst].
+    rewrite match_ne by apply enc_app_ne. rewrite (decode_encode x _ S1). cbv beta iota zeta.
+    assert (X36 : (x =? 36) = false).
+    { destruct (x =? 36) eqn:E; [| reflexivity]. apply N.eqb_eq in E. subst x.
+      destruct (ascii_class 36 ltac:(lia)) as (_ & A & _). rewrite A in P1. discriminate P1. }
+    rewrite X36, P1. cbn [negb]. rewrite adv_rune_app by apply encode_ne.
+    rewrite IH by (auto; cbn [length] in Hf; lia). cbn [bind]. rewrite firstn_app_len.
+    f_equal. f_equal. f_equal. f_equal. len.
+Qed.
+
+Lemma utf8_len rs : (length rs <= length (utf8 rs))%nat.
+Proof.
+  induction rs as [|x rs IH]; [cbn; lia |]. cbn [utf8 flat_map length]. fold (utf8 rs). rewrite app_length.
+  pose proof (encode_len x). lia.
+Qed.
+
+Lemma munch_LDollar tag body : munches (LDollar tag body).
+Proof.
+  intros bs r i OK _. cbn [lex_ok render tok_of] in *.
+  apply andb_prop in OK. destruct OK as [TG NE].
+  unfold dollar_tag in *. rewrite <- !app_assoc. cbn [app]. rewrite <- !app_assoc. cbn [app].
+  dispatch_punct. cbn [N.eqb Pos.eqb]. unfold read_dollar. rewrite adv_cons1. cbn [fst].
+  destruct tag as [|t0 ttl].
+  - cbn [utf8 flat_map app]. rewrite decode_ascii by lia. cbn [is_digit in_rng N.leb N.compare Pos.compare Pos.compare_cont andb N.eqb Pos.eqb orb bind fst].
+    rewrite decode_ascii by lia. cbn [N.eqb Pos.eqb negb]. unfold adv_rune. rewrite adv_cons1. cbn [fst].
+    change (body ++ 36 :: 36 :: r) with (body ++ [36; 36] ++ r).
+    rewrite (dollar_body_spec bs [36] (length body) body (le_n _)); auto; [| rewrite !app_length; cbn [length]; lia].
+    cbn [app]. fin.
+  - apply andb_prop in TG. destruct TG as [WS P0].
+    destruct (word_shape_inv _ WS) as (r0 & rtl & EQ & IS & SC & IP & SS). injection EQ as <- <-.
+    destruct (start_first_byte t0 (utf8 ttl ++ 36 :: body ++ 36 :: utf8 (t0 :: ttl) ++ 36 :: r) IS)
+      as (b0 & tb & E & _ & _ & _ & _ & ND & N36).
+    cbn [utf8 flat_map]. fold (utf8 ttl). rewrite <- !app_assoc.
+    rewrite match_ne by apply enc_app_ne. rewrite (decode_encode t0 _ SC). cbv beta iota zeta.
+    rewrite ND, N36, IS. cbn [orb].
+    change (encode_rune t0 ++ utf8 ttl ++ 36 :: body ++ 36 :: encode_rune t0 ++ utf8 ttl ++ 36 :: r)
+      with (encode_rune t0 ++ utf8 ttl ++ 36 :: (body ++ 36 :: encode_rune t0 ++ utf8 ttl ++ 36 :: r)).
+    rewrite app_assoc. change (encode_rune t0 ++ utf8 ttl) with (utf8 (t0 :: ttl)).
+    rewrite tag_body_spec.
+    + cbn [bind fst]. rewrite decode_ascii by lia. cbn [N.eqb Pos.eqb negb]. unfold adv_rune. rewrite adv_cons1. cbn [fst].
+      replace (body ++ 36 :: encode_rune t0 ++ utf8 ttl ++ 36 :: r)
+        with (body ++ (36 :: utf8 (t0 :: ttl) ++ [36]) ++ r)
+        by (cbn [utf8 flat_map app]; fold (utf8 ttl); rewrite <- !app_assoc; reflexivity).
+      rewrite (dollar_body_spec bs (utf8 (t0 :: ttl) ++ [36]) (length body) body (le_n _)); auto.
+      * cbn [app utf8 flat_map]. fold (utf8 ttl). fin.
+      * rewrite !app_length. cbn [length]. lia.
+    + cbn [forallb]. rewrite P0. exact IP.
+    + cbn [forallb]. rewrite SC. exact SS.
+    + pose proof (utf8_len (t0 :: ttl)). rewrite app_length. cbn [length] in *. lia.
+Qed.
